@@ -3,7 +3,7 @@ from core import run_cases
 
 MODULES = ["Props.C15"]
 THEOREMS = ["Props.C15.c15_complement", "Props.C15.c15_partition", "Props.C15.c15_norun",
-            "Props.C15.c15_extract", "Props.C15.c15_extract_no_comment"]
+            "Props.C15.c15_extract", "Props.C15.c15_extract_no_comment", "Props.C15.c15_fields"]
 
 
 def run(check, tier):
